@@ -198,3 +198,47 @@ Proof.
   - destruct (prove_ready s tg t); simpl; split; congruence.
   - split; [discriminate|]. intros H. destruct (PR H); congruence.
 Qed.
+
+(** the outlook's per-row floor only ever names an unmined, unmarked row with no dead dependency,
+    and the kind of step it announces is the row's own next step *)
+Theorem step_floor_live : forall s tg dead t k h, step_floor s tg dead t = Some (k, h) ->
+  is_mined t = false /\ t_unsat t = None /\ (forall d, In d (t_deps t) -> mem d dead = false)
+  /\ match k with
+     | KReevaluate => exists r, t_fail t = Some r /\ h = sat_add r 1
+     | KRebuild => t_fail t = None /\ expired_at t (tg_scanned tg) /\ is_transfer t = true /\ h = sat_add (t_expiry t) 1
+     | KProve => t_fail t = None /\ ~ expired_at t (tg_scanned tg) /\ (t_state t = Signed \/ t_state t = AwaitingSig)
+     | KBroadcast => t_fail t = None /\ ~ expired_at t (tg_scanned tg) /\ t_state t = Proved /\ h = t_sched t
+     | _ => False
+     end.
+Proof.
+  intros s tg dead t k h H. unfold step_floor in H.
+  destruct (is_mined t) eqn:M; [discriminate|].
+  destruct (is_some (t_unsat t) || existsb (fun d => mem d dead) (t_deps t)) eqn:U; [discriminate|].
+  apply orb_false_iff in U. destruct U as [U1 U2].
+  split; [reflexivity|]. split; [destruct (t_unsat t); [discriminate|reflexivity]|].
+  split.
+  { intros d Id. destruct (mem d dead) eqn:Q; [|reflexivity]. exfalso.
+    assert (X : existsb (fun d => mem d dead) (t_deps t) = true) by (apply existsb_exists; exists d; tauto). congruence. }
+  destruct (t_fail t) as [r|] eqn:F.
+  { inversion H; subst. exists r. tauto. }
+  destruct (is_expired t (tg_scanned tg)) eqn:E.
+  { destruct (is_transfer t) eqn:T; [|discriminate]. inversion H; subst.
+    split; [reflexivity|]. split; [apply is_expired_spec; exact E|]. tauto. }
+  assert (NE : ~ expired_at t (tg_scanned tg)) by (intros X; apply is_expired_spec in X; congruence).
+  destruct (t_state t) eqn:St; try discriminate; inversion H; subst; repeat split; auto.
+Qed.
+
+(** value that can no longer move is never rendered as merely waiting: an unmined row that is
+    marked, or that depends on a dead transaction, is reported [Unsatisfiable] *)
+Theorem status_dead_is_unsatisfiable : forall s tg t, is_mined t = false ->
+  (t_unsat t <> None \/ exists d, In d (t_deps t) /\ Dead (m_txs s) (tg_scanned tg) d) ->
+  ts_blocked (tx_status s tg (dead_set s tg) t) = Some BUnsatisfiable
+  /\ ts_ready (tx_status s tg (dead_set s tg) t) = false.
+Proof.
+  intros s tg t M H.
+  assert (RU : row_unsatisfiable (dead_set s tg) t = true).
+  { unfold row_unsatisfiable. rewrite M. simpl. destruct H as [H|[d [Id Dd]]].
+    - destruct (t_unsat t); [reflexivity|congruence].
+    - apply orb_true_iff. right. apply existsb_exists. exists d. split; [exact Id | apply dead_set_complete; exact Dd]. }
+  unfold tx_status. rewrite RU. split; reflexivity.
+Qed.
